@@ -104,6 +104,9 @@ func GenFragment(r *rng.R) *scen.Scenario {
 				if r.Chance(25, 100) {
 					m.Headers = append(m.Headers, gatewayv1.HTTPHeaderMatch{Type: ptr(gatewayv1.HeaderMatchExact),
 						Name: gatewayv1.HTTPHeaderName(rng.Pick(r, hdrNames)), Value: rng.Pick(r, hdrValues)})
+					if r.Chance(30, 100) {
+						m.Headers = repeatHeaderName(r, m.Headers, s.Tags)
+					}
 				}
 				if r.Chance(20, 100) {
 					m.QueryParams = append(m.QueryParams, gatewayv1.HTTPQueryParamMatch{Type: ptr(gatewayv1.QueryParamMatchExact),
